@@ -11,7 +11,7 @@ from ..strategies import market_names, program_strategy, spec_strategy
 from ._sim_common import frac, summarize
 
 ID = "C14"
-RULE = ("(fund) Hypothesis generates 2-4 markets (zero volatility in ~60% of cases, with drift), a FundamentalPriceShock placed "
+RULE = ("(mistake part: one case in three has a second OrderMistakeShock on another market, mostly at the same step; each replaces exactly the first order on its own target) (fund) Hypothesis generates 2-4 markets (zero volatility in ~60% of cases, with drift), a FundamentalPriceShock placed "
         "in any session with triggerTime / shockTimeLength inside, across the end of, or beyond its session, rate of either "
         "sign or exactly 0, enabled or not; one run in six continues across the 100-step generation chunks. Oracle: with zero volatility the whole fundamental series of every market equals initial * "
         "exp(drift*t) * (1+rate)^(number of executed window steps <= t) for the target and without the product for all "
